@@ -179,7 +179,7 @@ def rule_cycle(ctx):
                     codes_r = emit(rs[0], [r, flag], 2)
                     n += 1
                     if codes_s is None or codes_m is None or codes_r is None:
-                        bad.append((x, r, flag, mv, ["emission could not be folded"]))
+                        bad.append((x, r, flag, mv, ["the emission function panics on this input"]))
                         continue
                     locs = {tg.loc_of(t) for t in P}
                     m, init = _init_machine(b, locs)
